@@ -1,8 +1,9 @@
 """C10 -- results depend only on arguments and seed (translator route, DESIGN.md 3b / 6 C10).
 
 static : harness/skeleton_c10.py regenerates coq/Gen/SkelC10.v from the working tree; Gen/SkelC10Ok.v holds the closed
-         obligation `api_deterministic : check_all universe api exemptions fuel = true` (vm_compute); Proofs/EffectsP.v
-         proves that the checker is sound for the semantics of Model/Effects.v (noninterference).
+         obligations `api_deterministic : check_all universe api exemptions fuel = true` and `api_names_unique` (vm_compute);
+         Proofs/EffectsP.v proves that the checker is sound for the semantics of Model/Effects.v (noninterference);
+         Properties/C10.v states the theorem and its corollaries for the regenerated api.
 dynamic: every exported seeded function (enumerated from the source) is run under different global generator states and
          call histories and compared bitwise; generator-object mode; unseeded functions; default dictionaries.  The
          observed effects must agree with what the skeleton predicts (correspondence) and double as the failing-input search.
@@ -26,19 +27,35 @@ from harness import skeleton_c10 as SK
 THEOREMS = 'Properties/C10.v'
 TIME_LIMIT = {'quick': 900, 'thorough': 3600}
 CLAIM = dict(
-    text='Noninterference theorem (Coq, all worlds / histories / fuel): if the boolean checker accepts the contexts reachable '
-         'from a function, then for an integer seed the whole observation history (draws, dictionary reads, decisions), '
-         'hence the result, is identical in any two worlds, the global NumPy stream, OS entropy and all other generator '
-         'objects are untouched, and with a generator object only that object advances; functions without a seed make no '
-         'draw at all.  The premise is discharged for EVERY function of the working tree on every run '
-         '(api_deterministic, vm_compute over the skeleton regenerated from the source by a fail-closed ast translator). '
-         'rand_custom (no seed parameter, default f=np.random.randn) is a named exemption in the Coq data and is checked with f supplied.',
-    note='Trusted: the ast translator and its rules (listed in the evidence), NumPy contract default_rng(int) deterministic / a '
-         'Generator draws from its own state only, user callbacks do not draw from global generators nor store new keys in '
-         'info. Iteration order of dictionaries, implicit exceptions outside try blocks and info["t"] (timing) are not modelled. '
-         'The translator is validated on every run by the dynamic harness (bitwise comparison under >= 4 global states and histories).',
-    technique='Coq soundness proof of an effect checker + per-run closed boolean obligation over a regenerated skeleton + '
-              'dynamic bitwise determinism harness')
+    text='C10_noninterference (Coq, proved for every skeleton set, every two worlds, every fuel, every generator algorithm '
+         'and numeric code): if the boolean checker accepts (check_all = true), then for every entry context of an exported '
+         'function -- integer seeds or generator objects, callbacks supplied by the user or left at their defaults, optional '
+         'dictionaries left at their defaults -- two runs in worlds that agree only on what is handed to the call (and differ '
+         'arbitrarily in the global NumPy stream, OS entropy, clock, other generator objects and contents of the default '
+         'dictionaries) end with the same flag and the same observation history (every draw, every read of a default '
+         'dictionary, every decision, every callback call; the result is a function of arguments and history); neither run '
+         'touches the global stream, OS entropy or any generator object that was not handed over; handed-over generator '
+         'objects end in the same state. Corollaries for the functions of the working tree, with the premise discharged by '
+         'the per-run closed obligations C10_api_deterministic / C10_api_names_unique (vm_compute over the skeleton '
+         'regenerated from the source by a fail-closed ast translator): C10_api_integer_seed (same integer seed and '
+         'arguments => same history; global stream, entropy and EVERY generator object untouched), '
+         'C10_api_generator_object (only the given objects advance; a second object in the same state reproduces history and '
+         'end state), C10_api_unseeded (functions without a seed parameter draw from no generator of the world and their '
+         'history does not depend on the world, in particular not on what the default dictionaries held). '
+         'rand_custom (no seed parameter, default f=np.random.randn) is a named exemption in the Coq data: it is covered with f '
+         'supplied by the user only. Non-vacuity Examples: accepted / rejected skeletons (global draw two levels down, read '
+         'before reset, seed=None) and concrete two-world runs showing equal histories for the accepted and different ones '
+         'for the rejected skeletons.',
+    note='What is proved is a property of the effect skeleton; that the skeleton describes the Python source is trusted '
+         '(ast translator, rules listed in the evidence) and validated numerically on every run by the dynamic harness '
+         '(bitwise comparison under >= 4 global generator states x call histories, generator-object mode, default '
+         'dictionaries, pollution of the default dictionaries) -- that part is validation, not proof. Trusted: NumPy '
+         'contract default_rng(int) deterministic / a Generator draws from its own state only; user callbacks do not draw '
+         'from global generators nor store new keys in info. Not modelled: iteration order of dictionaries, implicit '
+         'exceptions outside try blocks, info["t"] (timing, excluded from "result"), out-of-fuel runs (excluded explicitly: '
+         'the theorems speak about runs that return).',
+    technique='Coq soundness proof (two-run simulation, induction on fuel and command) of an effect checker + per-run closed '
+              'boolean obligation over a regenerated skeleton + dynamic bitwise determinism harness')
 TRUSTED = ['Coq 8.16.1 kernel + vm_compute (closed obligation api_deterministic)',
            'harness/skeleton_c10.py: Python ast -> skeleton translator (rules in evidence coverage.translator_rules)',
            'NumPy: default_rng(int) is a function of the integer; a Generator draws from its own state only',
@@ -58,6 +75,10 @@ Definition fuel_c10 : nat := {FUEL}.
 Lemma api_deterministic : check_all universe api exemptions fuel_c10 = true.
 Proof. vm_compute; reflexivity. Qed.
 Lemma api_names_unique : names_unique api = true.
+Proof. vm_compute; reflexivity. Qed.
+(* non-vacuity on the working tree: at least 5 exported seeded functions have a model run (seed 7, concrete world, one of six decision oracles) that
+   returns and draws from the generator made from the seed *)
+Lemma api_runs_and_draws : Nat.leb 5 (List.length (List.filter (runs_and_draws universe api) api)) = true.
 Proof. vm_compute; reflexivity. Qed.
 '''
 _STATE = {}
@@ -228,23 +249,29 @@ def seeded_recipes(E):
     R = {}
     R['rand'] = [('n=[4,5,3] r=2', lambda s: tn.rand(cp(E.n), 2, seed=s)),
                  ('r list a,b', lambda s: tn.rand([3, 2, 4, 2], [1, 2, 3, 2, 1], -2., 3., seed=s))]
-    R['rand_norm'] = [('n=[4,5,3] r=3', lambda s: tn.rand_norm(cp(E.n), 3, 0.5, 2., seed=s))]
-    R['rand_stab'] = [('n=[4,5,3] r=2', lambda s: tn.rand_stab(cp(E.n), 2, 1e-3, seed=s))]
+    R['rand'].append(('optional arguments at their defaults', lambda s: tn.rand(cp(E.n), 2, seed=s)))
+    R['rand_norm'] = [('n=[4,5,3] r=3', lambda s: tn.rand_norm(cp(E.n), 3, 0.5, 2., seed=s)),
+                      ('optional arguments at their defaults', lambda s: tn.rand_norm(cp(E.n), 3, seed=s))]
+    R['rand_stab'] = [('n=[4,5,3] r=2', lambda s: tn.rand_stab(cp(E.n), 2, 1e-3, seed=s)),
+                      ('optional arguments at their defaults', lambda s: tn.rand_stab(cp(E.n), 2, seed=s))]
     R['sample'] = [('m=6', lambda s: tn.sample(cp(E.Yp), 6, seed=s))]
     R['sample_lhs'] = [('n=[4,5,3] m=7', lambda s: tn.sample_lhs(cp(E.n), 7, seed=s)),
                        ('m<k', lambda s: tn.sample_lhs([6, 7], 3, seed=s))]
     R['sample_rand'] = [('n=[4,5,3] m=7', lambda s: tn.sample_rand(cp(E.n), 7, seed=s))]
     R['sample_rand_poi'] = [('d=3 m=5', lambda s: tn.sample_rand_poi([-1., 0., 2.], [1., 3., 5.], 5, seed=s))]
+    R['sample_tt'] = [('n=[4,5,3] r=2', lambda s: tn.sample_tt(cp(E.n), 2, seed=s)),
+                      ('optional arguments at their defaults', lambda s: tn.sample_tt(cp(E.n), seed=s))]
     R['sample_square'] = [('unique m=5', lambda s: tn.sample_square(cp(E.Yp), 5, seed=s)),
                           ('unique m=40 (restarts)', lambda s: tn.sample_square(cp(E.Yp), 40, True, s, 1, 100)),
                           ('not unique m=9', lambda s: tn.sample_square(cp(E.Yp), 9, unique=False, seed=s))]
-    R['sample_tt'] = [('n=[4,5,3] r=2', lambda s: tn.sample_tt(cp(E.n), 2, seed=s))]
     R['sample_func'] = [('A 4x4x4', lambda s: tn.sample_func(cp(E.A), seed=s))]
-    R['core_qr_rand'] = [('ltr', lambda s: tn.core_qr_rand(cp(E.G), 2, True, seed=s)),
+    R['core_qr_rand'] = [('optional arguments at their defaults', lambda s: tn.core_qr_rand(cp(E.G), 2, seed=s)),
+                         ('ltr', lambda s: tn.core_qr_rand(cp(E.G), 2, True, seed=s)),
                          ('rtl', lambda s: tn.core_qr_rand(cp(E.G), 1, False, seed=s))]
     R['cross_act'] = [('dr=2 dr2=1', lambda s: tn.cross_act(E.f_act, [cp(E.Y), cp(E.Y2)], cp(E.Y1), e=1e-8, nswp=2, r=4,
                                                             dr=2, dr2=1, seed=s))]
-    R['anova'] = [('order 1', lambda s: tn.anova(cp(E.I), cp(E.y), 2, 1, 1e-3, seed=s)),
+    R['anova'] = [('optional arguments at their defaults', lambda s: tn.anova(cp(E.I), cp(E.y), seed=s)),
+                  ('order 1', lambda s: tn.anova(cp(E.I), cp(E.y), 2, 1, 1e-3, seed=s)),
                   ('order 2', lambda s: tn.anova(cp(E.I), cp(E.y), 3, 2, 1e-3, seed=s))]
 
     def anova_cls(s):
@@ -481,6 +508,42 @@ def check_dicts(E, fails, stats):
                                   input=dict(recipe=['dict', fname], history=h, history_ref=ref[1], mode='default-dict'),
                                   got=short(r, 400), expected=short(ref[0], 400)))
                 break
+    # (b) the same against ARBITRARY stale contents (what the Coq theorem quantifies over): every key of the universe of every
+    #     default dictionary is set to a sentinel before the call; result, what the callback sees and the final contents
+    #     must be those of a run on cleared dictionaries
+    rep0 = _STATE.get('report') or {}
+    uni0 = {tuple(l): list(ks) for l, ks in rep0.get('universe', [])}
+
+    def pollute(val):
+        for v in dd.values():
+            v.clear()
+        if val is None:
+            return
+        for (fn, p), v in dd.items():
+            q = [u for u in uni0 if u[0].endswith('.' + fn) and u[1] == p]
+            if q and isinstance(v, dict):
+                for k in uni0[q[0]]:
+                    if k != 't':
+                        v[k] = val
+    for fname in ['cross', 'als', 'als_func']:
+        ref = None
+        for val in [None, 12345, 'stale', True, -1.5, 0]:
+            pollute(val)
+            np.random.seed(5)
+            try:
+                r = with_cb(fname)
+            except Exception as e:
+                r = canon(e)
+            stats['evals'] += 1
+            if ref is None:
+                ref = r
+            elif r != ref:
+                fails.append(dict(what=f'{fname}: with info left at its default, the result / the info seen by the callback / the '
+                                       f'final info depends on stale contents of the default dictionary (every known key preset to {val!r})',
+                                  input=dict(recipe=['dict', fname], pollution=repr(val), mode='default-dict-pollution'),
+                                  got=short(r, 400), expected=short(ref, 400)))
+                break
+    pollute(None)
     for h in range(len(H)):
         world(E, 6, 2, H[h])
         r = canon(tn.cache_to_data())
@@ -502,6 +565,42 @@ def check_dicts(E, fails, stats):
         elif isinstance(v, dict) and not keys <= uni[q[0]]:
             fails.append(dict(what=f'{fn}: default dictionary {p} holds keys the skeleton does not predict',
                               input=dict(recipe=['dict', fn, p], mode='universe'), got=sorted(map(str, keys)), expected=sorted(uni[q[0]])))
+
+
+def import_probe(rng_seed, seeds, fails, stats, only=None):
+    """Dependence on the global generator state AT IMPORT / DEF TIME (module-level draws, default values computed from
+    numpy.random): teneva is re-imported under different global states; every recipe (integer seed, defaults everywhere)
+    must give bitwise identical results whichever state the import saw."""
+    ref = {}
+    for K in (11, 2024):
+        np.random.seed(K)
+        pyrandom.seed(K)
+        tn = C.import_teneva()
+        E = Env(tn, C.Rng(rng_seed))
+        calls = []
+        for name, lst in seeded_recipes(E).items():
+            for label, call in lst:
+                for s in seeds:
+                    calls.append(((name, label, s), (lambda c=call, s=s: c(s))))
+        for name, call in unseeded_recipes(E).items():
+            calls.append(((name, '', None), call))
+        for key, th in calls:
+            if only and key[0] not in only and 'import' not in only:
+                continue
+            np.random.seed(0)
+            pyrandom.seed(0)
+            r, _ = run_call(th)
+            if key[0] == '_rand':
+                continue
+            stats['evals'] += 1
+            if key not in ref:
+                ref[key] = r
+            elif r != ref[key]:
+                fails.append(dict(what=f'{key[0]}: the result depends on the state the global generator had when teneva was imported '
+                                       f'(a default value or module-level code draws from numpy.random / random)',
+                                  input=dict(recipe=['import', key[0], key[1]], seed=key[2], import_states=[11, 2024], mode='import-time'),
+                                  got=short(r), expected=short(ref[key])))
+    C.import_teneva()
 
 
 def exported_seeded_from_source():
@@ -553,6 +652,12 @@ def run_dynamic(tn, rng, deep, only=None):
             fails.append(dict(what=f'{name}: harness raised {e!r}', input=dict(recipe=[name])))
     if not only or 'dict' in only:
         check_dicts(E, fails, stats)
+    if not only or 'import' in only:
+        try:
+            import_probe(rng.randrange(2 ** 31), seeds[-1:], fails, stats, only=None)
+        except Exception as e:
+            traceback.print_exc()
+            fails.append(dict(what=f'import probe: harness raised {e!r}', input=dict(recipe=['import'])))
     if not only or 'rand_custom' in only:
         # the named exemption, both directions: default f draws from the global stream, a supplied f does not
         check_unseeded(E, 'rand_custom(default f)', lambda: tn.rand_custom([3, 4], 2), nworlds, fails, stats, predict_global=True)
@@ -602,7 +707,7 @@ def search(R, ctx, deep, hints):
     if deep and not fails:
         # the obligation or the correspondence broke: look harder (more worlds, more seeds) -- first at the flagged functions
         flagged = {h['input'].get('function', '').split('.')[-1] for h in hints if h.get('static')}
-        flagged = {('ANOVA' if 'ANOVA' in f else f) for f in flagged} | {'dict'}
+        flagged = {('ANOVA' if 'ANOVA' in f else f) for f in flagged} | {'dict', 'import'}
         for only in ([sorted(flagged)] if flagged else []) + [None]:
             f2, st = run_dynamic(tn, ctx['rng'], deep=True, only=only)
             n += st['evals']
